@@ -139,6 +139,9 @@ void DocumentBuilder::decl_progress(bool hasGuard)
  */
 void DocumentBuilder::proc_begin(const char* name, const bool isTA, const string& type, const string& mode)
 {
+    // the preceding declaration block may have ended inside an unterminated function
+    abandon_function();
+
     currentTemplate = document.find_dynamic_template(name);
     if (currentTemplate) {
         /* check if parameters match */
@@ -173,6 +176,8 @@ void DocumentBuilder::proc_begin(const char* name, const bool isTA, const string
 void DocumentBuilder::proc_end()  // 1 ProcBody
 {
     currentTemplate = nullptr;
+    // the local declarations may have ended inside an unterminated function
+    abandon_function();
     // a label that failed to parse may have left frames (e.g. of a quantifier) behind: drop them with the template's
     while (frames.size() > templateFrameDepth)
         popFrame();
